@@ -504,6 +504,45 @@ def apply(st, op, values=None):
         st.ref = model
         rec.add_attributes([(st.spell(aname), val.make(st, scope))])
         _conform(rec, model.sc[scope].records[idx])
+    elif kind == "asrt":
+        # add_asserted_type on the record created last (a PROV class name: its namespace is always declared)
+        _, vkey = op
+        if st.last is None:
+            raise NotEnabled("no-record")
+        scope, idx, rec = st.last
+        val = values[vkey]
+        if getattr(val, "name", ("", ""))[0] != "P":
+            raise NotEnabled("asserted-type-outside-prov-namespace")
+        model = _fork(ref)
+        mrec = model.sc[scope].records[idx]
+        pair = (PROV_URI + "type", ("qn", U["P"] + val.name[1]))
+        if pair in mrec[2]:
+            raise NotEnabled("attribute-value-already-present")
+        model.sc[scope].records[idx] = [mrec[0], mrec[1], list(mrec[2]) + [pair]]
+        st.ref = model
+        rec.add_asserted_type(val.make(st, scope))
+        _conform(rec, model.sc[scope].records[idx])
+    elif kind == "settime":
+        # ProvActivity.set_time on the record created last (a setter: replaces)
+        _, which, tkey = op
+        if st.last is None:
+            raise NotEnabled("no-record")
+        scope, idx, rec = st.last
+        model = _fork(ref)
+        mrec = model.sc[scope].records[idx]
+        if mrec[0] != PROV_URI + "Activity":
+            raise NotEnabled("not-an-activity")
+        attr = PROV_URI + ("startTime" if which == "start" else "endTime")
+        new = (attr, observe.vobs(TIMES[tkey]))
+        if new in mrec[2]:
+            raise NotEnabled("attribute-value-already-present")
+        model.sc[scope].records[idx] = [mrec[0], mrec[1], [a for a in mrec[2] if a[0] != attr] + [new]]
+        st.ref = model
+        if which == "start":
+            rec.set_time(startTime=TIMES[tkey])
+        else:
+            rec.set_time(endTime=TIMES[tkey])
+        _conform(rec, model.sc[scope].records[idx])
     elif kind == "get":
         # a lookup: no effect on the content, but it is a call into the container's indexes
         _, scope, name = op
@@ -723,6 +762,10 @@ def render(alphabet, hist, values=None):
                     scope, rkind, ", ".join(call), "None" if idname is None else sp(idname)))
         elif k == "at":
             lines.append("r.add_attributes([(%s, %s)])" % (sp(op[1]), values[op[2]].source))
+        elif k == "asrt":
+            lines.append("r.add_asserted_type(%s)" % values[op[1]].source)
+        elif k == "settime":
+            lines.append("r.set_time(%s=%r)" % ("startTime" if op[1] == "start" else "endTime", TIMES[op[2]]))
         elif k == "get":
             lines.append("c[%r].get_record(%s)" % (op[1], sp(op[2])))
         elif k == "addb":
